@@ -33,6 +33,8 @@ package req
 //@   ghostset-at-entry hdrComplete = false
 //@   ghostset after ReadRawHeaders#0: hdrComplete = (result2 == nil)
 //@   assert @C02 before parseHeaders#0: hdrComplete
+//@   replay-go whole := "POST / HTTP/1.1\r\nA: b\r\n c\r\nHost: x\r\n\r\n"; var h1 protocol.RequestHeader; if _, err := parse(&h1, []byte(whole)); err != nil { fmt.Println("VCGO-NOTE whole:", err); return }; want := string(h1.Peek("A")); buf := []byte(whole); cut := len("POST / HTTP/1.1\r\nA: b\r\n c\r\n"); var h2 protocol.RequestHeader; parse(&h2, buf[:cut]); h2.ResetSkipNormalize(); parse(&h2, buf); if got := string(h2.Peek("A")); got != want { fmt.Printf("VCGO-VIOLATED request header A is %q when the block arrives whole and %q when the first attempt saw only the folded line\n", want, got) }
+//@   replay-import github.com/cloudwego/hertz/pkg/protocol
 //@   ensures err == nil ==> 0 <= n && n <= len(buf)
 
 //@ func tryRead(h, r, n) err
